@@ -235,7 +235,7 @@ impl Report {
     });
     let _ = fs::create_dir_all(format!("{}/evidence", verif_dir()));
     // a replay of one recorded history must not overwrite the evidence of the property's check
-    let path = if self.replay_mode { format!("{}/evidence/{}.replay.json", verif_dir(), self.property) } else { format!("{}/evidence/{}.json", verif_dir(), self.property) };
+    let path = if self.replay_mode { { let _ = fs::create_dir_all(format!("{}/replays", verif_dir())); format!("{}/replays/{}.replay-evidence.json", verif_dir(), self.property) } } else { format!("{}/evidence/{}.json", verif_dir(), self.property) };
     if let Err(e) = fs::write(&path, serde_json::to_string_pretty(&evidence).unwrap()) {
       engine_error(&format!("cannot write evidence {}: {}", path, e));
     }
